@@ -297,7 +297,7 @@ def lean_site(s):
     return "⟨[%s], .%s, %s⟩" % (cs, call, "true" if loop else "false")
 
 
-def generate():
+def _generate():
     entries, macros_all, problems = [], [], []
     nsites = 0
     for kind, fname, getdef_name in KINDS:
@@ -341,6 +341,23 @@ def generate():
     lines += ["", "def table : List Entry := [", ",\n".join(entries), "]", "", "end ArgoVerif.Gen.PoolEnds", ""]
     changed = C.write_if_changed(os.path.join(C.LEAN, "ArgoVerif", "Gen", "PoolEnds.lean"), "\n".join(lines))
     return {"entries": len(entries), "sites": nsites, "macros": dict(macros_all), "changed": changed}
+
+
+def generate():
+    """Never raises for a source shape it does not understand: that must break *C07's* theorem (empty table ->
+    `table_shape` / `pool_kind_ends` fail -> failing-input search), not the translators of every other property."""
+    try:
+        return _generate()
+    except Unsupported as ex:
+        msg = str(ex).replace("\\", "/").replace('"', "'").replace("\n", " ")[:600]
+        lines = ["/- GENERATED by tools/poolgen.py — THE TRANSLATOR COULD NOT READ THE POOL SOURCES. Do not edit. -/",
+                 "import ArgoVerif.Model.TQ",
+                 "namespace ArgoVerif.Gen.PoolEnds",
+                 "open ArgoVerif.Model.Pool", "",
+                 'def translatorError : String := "%s"' % msg, "",
+                 "def table : List Entry := []", "", "end ArgoVerif.Gen.PoolEnds", ""]
+        changed = C.write_if_changed(os.path.join(C.LEAN, "ArgoVerif", "Gen", "PoolEnds.lean"), "\n".join(lines))
+        return {"entries": 0, "error": str(ex)[:600], "changed": changed}
 
 
 if __name__ == "__main__":
